@@ -12,6 +12,11 @@ def optMap {α β : Type} (f : α → Option β) : List α → Option (List β)
     | some b, some bs => some (b :: bs)
     | _, _ => none
 
+theorem optMap_some {α β : Type} (f : α → β) (l : List α) : optMap (fun a => some (f a)) l = some (l.map f) := by
+  induction l with
+  | nil => rfl
+  | cons a l ih => simp [optMap, ih]
+
 /-- what convert writes for one NAL, as (type, bytes): the RPU rewritten by the library when a mode / edit
 config is set, every other NAL itself -/
 def slSpec (convSet : Bool) (conv : Bytes → Option Bytes) (it : Item) : Option (Nat × Bytes) :=
